@@ -40,12 +40,16 @@ pub mod h_misc2 {
 pub mod h_input {
     include!(concat!(env!("CHUMSKY_VERIF_DIR"), "/h_input.rs"));
 }
+pub mod h_text {
+    include!(concat!(env!("CHUMSKY_VERIF_DIR"), "/h_text.rs"));
+}
 pub fn register_all(r: &mut Vec<(&'static str, fn())>) {
     h_comb::register(r);
     h_prim::register(r);
     h_comb2::register(r);
     h_iter::register(r);
     h_top::register(r);
+    h_text::register(r);
     h_input::register(r);
     h_misc::register(r);
     h_misc2::register(r);
